@@ -67,7 +67,11 @@ func decorators() []decorator {
 		decorator{name: "source(f.go,7,\"\")", kind: 'f', file: "f.go", line: "7", function: "", emptyOK: true,
 			apply: func(e error) error { return psqlerr.WithSource(e, "f.go", 7, "") }},
 		decorator{name: "source(\"\",7,fn)", kind: 'f', file: "", line: "7", function: "fn", emptyOK: true,
-			apply: func(e error) error { return psqlerr.WithSource(e, "", 7, "fn") }})
+			apply: func(e error) error { return psqlerr.WithSource(e, "", 7, "fn") }},
+		// a location whose three parts are all zero: nothing else (an inner location, a location made up by the
+		// library) may be reported in its place
+		decorator{name: "source(\"\",0,\"\")", kind: 'f', file: "", line: optionalZero, function: "", emptyOK: true,
+			apply: func(e error) error { return psqlerr.WithSource(e, "", 0, "") }})
 	return ds
 }
 
@@ -128,6 +132,9 @@ func expectFields(ds []decorator, base string, shape []int) map[byte]string {
 // optionalEmpty marks a field whose value is empty: present-and-empty or absent are both accepted.
 const optionalEmpty = "\x00optional-empty"
 
+// optionalZero marks a line field that is absent, empty or "0".
+const optionalZero = "\x00optional-zero"
+
 func shapeNames(ds []decorator, shape []int) []string {
 	out := make([]string, len(shape))
 	for i, s := range shape {
@@ -156,6 +163,12 @@ func diffFields(want, got map[byte]string) string {
 	for _, k := range []byte("SCMHDFLRn") {
 		w, hw := want[k]
 		g, hg := got[k]
+		if w == optionalZero {
+			if hg && g != "" && g != "0" {
+				out = append(out, fmt.Sprintf("field %c: expected 0, empty or absent, got %q", k, g))
+			}
+			continue
+		}
 		if w == optionalEmpty {
 			if hg && g != "" {
 				out = append(out, fmt.Sprintf("field %c: expected empty or absent, got %q", k, g))
